@@ -273,6 +273,14 @@ def check(case):
             sa, nan_a = cg.cause_status(t, pos, idx, ca[0], ca[1], float(ma[pos]), brute(order_s))
             sb, nan_b = cg.cause_status(t, pos, idx, cb[0], cb[1], float(mb[pos]), brute(order_p))
             if sa == "valid" and sb == "valid":
+                vals = {(r["case"][0], int(r["case"][1])): float(r["vals"][t][pos]) for r in brute(order_s) if r["vals"] is not None}
+                exact = vals.get((ca[0], int(ca[1]))) is not None and vals.get((ca[0], int(ca[1]))) == vals.get((cb[0], int(cb[1])))
+                if exact and [list(c) for c in order_s] == [list(c) for c in order_p]:
+                    # an exact tie (own N-1 loop gives bit-identical loadings) and both runs saw the cases in the same order:
+                    # "the same results" includes which of the tied cases is named
+                    res.fail("cause-differs/tie-resolved-differently-for-the-same-case-order", element=[t, idx],
+                             seq=[repr(ca[0]), _int(ca)], par=[repr(cb[0]), _int(cb)], max=float(ma[pos]), mode=par["mode"])
+                    continue
                 res.label("cause-tie-resolved-differently")
                 continue
             _, nan_b2 = cg.cause_status(t, pos, idx, cb[0], cb[1], float(mb[pos]), brute(order_p), in_service_mask=False)
